@@ -2,6 +2,7 @@
 // binary_buffer_reader) over the compiled-in type family.
 #include <igris/serialize/stdtypes.h>
 #include "C09_impl.h"
+#include <memory>
 
 namespace c09
 {
@@ -70,11 +71,51 @@ namespace c09
         template <class T> static void get(R &r, T &v) { igris::deserialize(r, v); }
     };
 
-    Api *make_api1()
+    // the same API through the other writer: binary_buffer_writer into an exact-size heap block (size = what the layout
+    // rule predicts, so a writer that emits more is an ASan report) and the convenience functions
+    // igris::serialize(obj) / igris::deserialize<T>(string)
+    struct P1b : P1
     {
-        auto *a = new ApiImpl<P1>();
+        static const char *apiname() { return "archive-bufwriter"; }
+        struct W
+        {
+            std::string acc;
+        };
+        struct WHolder
+        {
+            W wr;
+            W &w() { return wr; }
+            const std::string &bytes() { return wr.acc; }
+        };
+        template <class T> static void put(W &w, const T &v)
+        {
+            std::string ref;
+            Ref<T>::enc(v, ref);
+            std::unique_ptr<char[]> buf(new char[ref.size() ? ref.size() : 1]);
+            igris::archive::binary_buffer_writer bw(buf.get(), ref.size());
+            igris::serialize(bw, v);
+            size_t n = (size_t)(bw.ptr - buf.get());
+            std::string conv = igris::serialize(v); // convenience function must agree with the archive
+            if (conv.size() != n || memcmp(conv.data(), buf.get(), n) != 0)
+                kit::violate("C09/writers-disagree@archive", "binary_buffer_writer wrote %zu bytes, igris::serialize(obj) returned %zu bytes for the same value", n, conv.size());
+            w.acc.append(buf.get(), n);
+        }
+        template <class T> static void get(R &r, T &v)
+        {
+            // decode through the convenience function from exactly the remaining bytes, then advance the stream reader
+            const char *p = r.ptr;
+            size_t left = (size_t)((const char *)r.end() - p);
+            T viaconv = igris::deserialize<T>(igris::buffer(p, left));
+            igris::deserialize(r, v);
+            if (!Ref<T>::eq(v, viaconv)) kit::violate("C09/readers-disagree@archive", "igris::deserialize<T>(buffer) and the archive reader decode different values from the same bytes");
+        }
+    };
+
+    template <class P> Api *make_api1_with()
+    {
+        auto *a = new ApiImpl<P>();
         auto &t = a->types;
-#define T1(type, depth, nt) t.push_back(make_entry<P1, type>(#type, depth, nt))
+#define T1(type, depth, nt) t.push_back(make_entry<P, type>(#type, depth, nt))
         T1(int8_t, 0, false);
         T1(int16_t, 0, false);
         T1(int32_t, 0, false);
@@ -117,4 +158,6 @@ namespace c09
 #undef T1
         return a;
     }
+    Api *make_api1() { return make_api1_with<P1>(); }
+    Api *make_api1b() { return make_api1_with<P1b>(); }
 }
